@@ -531,9 +531,9 @@ func main() {
 	euc := extract(filepath.Join(*repo, "distance/asm/euclidean.s"), "euclidean")
 	mustContain(filepath.Join(*repo, "distance/distance_amd64.go"),
 		"dotProductImpl = asm.Dot", "euclideanDistance = asm.SquaredEuclideanDistance")
+	// (the bodies of dotProductDistance / cosineDistance / haversineDistance are no longer pinned as text: they are
+	// translated by tools/go2lean into Generated/Distance.lean and the theorems of C20/Formula.lean state their expression trees)
 	mustContain(filepath.Join(*repo, "distance/distance.go"),
-		"func dotProductDistance(x, y []float32) float32 { return -dotProductImpl(x, y) }",
-		"func cosineDistance(x, y []float32) float32 { return 1 - dotProductImpl(x, y) }",
 		"case models.DistanceEuclidean: return euclideanDistance, nil",
 		"case models.DistanceDot: return dotProductDistance, nil",
 		"case models.DistanceCosine: return cosineDistance, nil",
